@@ -218,6 +218,9 @@ def run_case(ctx, case):
             if rng.random() < 0.15:
                 setting[d] = {"int": 999, "float": 123.456, "str": "absent"}[case["coordt"][d]]
                 ctx.count("absent_coordinate_requests")
+        if rng.random() < 0.2:
+            setting["new_param"] = 7          # a parameter the data has no dimension for: nothing can be there yet
+            ctx.count("absent_coordinate_requests")
         tgt = obj if not case["da"] else obj
         tds = ds if not case["da"] else obj.to_dataset(name="only")
         try:
@@ -241,6 +244,9 @@ def run_case(ctx, case):
             if rng.random() < 0.3:
                 combos[d] = combos[d] + [{"int": 999, "float": 123.456, "str": "absent"}[case["coordt"][d]]]
                 ctx.count("absent_coordinate_requests")
+        if rng.random() < 0.2:
+            combos["new_param"] = [7, 8]       # extending the grid along a parameter the dataset does not know yet
+            ctx.count("absent_coordinate_requests")
         cs = None
         if cdims:
             allc = list(itertools.product(*[ds[d].values.tolist() for d in cdims]))
